@@ -91,7 +91,7 @@ def default_target(irs):
 
 def compare(A, B, target, model: Model, *, val_opts=None, timeout_ms=20000,
             seed=0, max_assignments=None, replay=True, spec_extra=None,
-            valuation_factory=None):
+            valuation_factory=None, target_B=None, fixed_B=None):
     """
     A, B     adcgen containers or sympy objects
     target   iterable of Index *objects* (sympy) that are fixed by tau
@@ -109,13 +109,33 @@ def compare(A, B, target, model: Model, *, val_opts=None, timeout_ms=20000,
         val = FreeValuation(vars_, model, spec, **(val_opts or {}))
     tobj = {IR.idx_ir(s): s for s in target}
     T = sorted(tobj)
+    # target_B: the target indices of B that correspond (position by position) to
+    # `target` of A when the two expressions use different index objects (spin
+    # integration); the assignments are enumerated over B's (more restrictive) indices
+    mapB = None
+    if target_B is not None:
+        tobjB = {IR.idx_ir(s): s for s in target_B}
+        mapB = {IR.idx_ir(b): IR.idx_ir(a) for a, b in zip(target, target_B)}
+        T = sorted(tobjB)
     pairs, taus = [], []
     n_undefined = 0
     for n, tau in enumerate(model.assignments(T)):
         if max_assignments is not None and len(pairs) >= max_assignments:
             break
+        tauA = tau if mapB is None else {mapB[k]: o for k, o in tau.items()}
+        if mapB is not None and len(tauA) != len({mapB[k] for k in tau}):
+            continue
+        if mapB is not None:
+            # a repeated target index of A must receive one orbital
+            ok = True
+            chk = {}
+            for k, o in tau.items():
+                if chk.setdefault(mapB[k], o) != o:
+                    ok = False
+            if not ok:
+                continue
         try:
-            a = refA(model, val, tau) if refA else expr_value(irA, model, val, tau)
+            a = refA(model, val, tauA) if refA else expr_value(irA, model, val, tauA)
             b = expr_value(irB, model, val, tau)
         except Undefined:
             n_undefined += 1
@@ -149,18 +169,23 @@ def compare(A, B, target, model: Model, *, val_opts=None, timeout_ms=20000,
     # ---- replay --------------------------------------------------------------
     tau = taus[v.which] if v.which is not None else taus[0]
     numeric = NumericValues(vars_, v.model)
-    asg_obj = {tobj[k]: o for k, o in tau.items()}
     cand = [tau] if v.which is not None else taus
     found = None
     for tau in cand:
-        asg_obj = {tobj[k]: o for k, o in tau.items()}
+        if mapB is None:
+            asg_obj = {tobj[k]: o for k, o in tau.items()}
+            asg_objB, tauA = asg_obj, tau
+        else:
+            tauA = {mapB[k]: o for k, o in tau.items()}
+            asg_obj = {tobj[k]: o for k, o in tauA.items()}
+            asg_objB = {tobjB[k]: o for k, o in tau.items()}
         try:
             if refA:
                 from sympy import nsimplify
-                va = nsimplify(numeric.ml(refA(model, val, tau)))
+                va = nsimplify(numeric.ml(refA(model, val, tauA)))
             else:
                 va = eval_sympy(A, model, val, numeric, asg_obj)
-            vb = eval_sympy(B, model, val, numeric, asg_obj)
+            vb = eval_sympy(B, model, val, numeric, asg_objB)
         except ZeroDivisionError:
             continue
         if (va - vb).simplify() != 0:
